@@ -6,8 +6,9 @@ From Coquelicot Require Import Coquelicot.
 From P Require Import C01_gen C01_model C01_proofs_poly C01_proofs_fejer1.
 Open Scope R_scope.
 
-(* ---- Fejer 1 as coded (series stops at nsum-1): exact to degree n-2 for every n, to n-1 only for even n;
-        for EVERY odd n >= 3 the degree n-1 is integrated wrongly; witness n = 3, x^2 (rule 1, integral 2/3) *)
+(* ---- FejerFirst: theorems that hold for the series length read from the source whether it is nsum-1 (pinned code) or
+        nsum (repaired code); the full-strength statement fejer1_exact is in C01_props_fejer1_exact.v, its refutation for the
+        pinned code in C01_refuted_fejer1.v *)
 Theorem fejer1_exact_partial : forall n m, (2 <= n)%nat -> (m <= n - 1)%nat -> (Nat.even n = true \/ m < n - 1)%nat ->
   rsum n (fun k => wts_FejerFirst n k * cheb m (pts_FejerFirst n k)) = cheb_int m.
 Proof. exact fejer1_exact_partial_lemma. Qed.
@@ -19,24 +20,8 @@ Theorem fejer1_exact_poly_partial : forall n f, (2 <= n)%nat ->
 Proof. exact fejer1_exact_poly_partial_thm. Qed.
 Print Assumptions fejer1_exact_poly_partial.
 
-Theorem fejer1_exact_refuted :
-  exists n d, (2 <= n)%nat /\ (d <= n - 1)%nat /\
-    rsum n (fun k => wts_FejerFirst n k * pts_FejerFirst n k ^ d) <> mono_int d.
-Proof. exact fejer1_exact_refuted_lemma. Qed.
-Print Assumptions fejer1_exact_refuted.
-
-Theorem fejer1_witness_value : rsum 3 (fun k => wts_FejerFirst 3 k * pts_FejerFirst 3 k ^ 2) = 1.
-Proof. exact fejer1_n3_x2. Qed.
-Print Assumptions fejer1_witness_value.
-
-Theorem fejer1_defect_every_odd_n : forall n, (3 <= n)%nat -> Nat.odd n = true ->
-  rsum n (fun k => wts_FejerFirst n k * cheb (n - 1) (pts_FejerFirst n k)) = 0 /\ cheb_int (n - 1) <> 0.
-Proof. exact fejer1_defect_odd. Qed.
-Print Assumptions fejer1_defect_every_odd_n.
-
-(* proposed fix (`np.arange(nsum) + 1`, `np.ones(nsum)`): exact to degree n-1 for every n *)
+(* the rule with the full series of nsum terms (model wts_FejerFirst_full): exact to degree n-1 for every n *)
 Theorem fejer1_fixed_exact : forall n f, (1 <= n)%nat -> pspan (n - 1) f ->
   is_RInt f (-1) 1 (rsum n (fun k => wts_FejerFirst_full n k * f (pts_FejerFirst n k))).
 Proof. exact fejer1_fixed_poly_thm. Qed.
 Print Assumptions fejer1_fixed_exact.
-
